@@ -14,11 +14,13 @@ import (
 
 	toml "github.com/pelletier/go-toml"
 	"github.com/vimeo/dials"
+	"github.com/vimeo/dials/common"
 	cuedec "github.com/vimeo/dials/decoders/cue"
 	jsondec "github.com/vimeo/dials/decoders/json"
 	tomldec "github.com/vimeo/dials/decoders/toml"
 	yamldec "github.com/vimeo/dials/decoders/yaml"
 	"github.com/vimeo/dials/ptrify"
+	"github.com/vimeo/dials/sources/static"
 	"github.com/vimeo/dials/sources/env"
 	stdflagsrc "github.com/vimeo/dials/sources/flag"
 	"github.com/vimeo/dials/sourcewrap"
@@ -36,6 +38,7 @@ func init() {
 			"the environment source, sources/flag, sources/pflag, or a JSON / YAML / TOML / Cue document read through sourcewrap.NewTransformingDecoder(decoder, NewAliasMangler(\"dials\")) as ez wraps them, plus a static config type through the ez entry points themselves (with and without a FileFieldNameEncoder, which must re-case primary and alias names alike). Expected: unset / value / value / an error whose text contains the Go field name; non-aliased leaves are set normally at random. Names of primaries and aliases are computed from the generator's word lists. " +
 			"Leaves (aliased or not) additionally carry, at random, alias tags that belong to OTHER sources (dialsflagalias on a type read by the environment source or a file decoder, ...): in the source at hand such a tag adds no name, so a leaf with only such tags must behave like any non-aliased leaf (set under its one name, no error). " +
 			"About a third of the sources/flag cases build the source over a FlagSet on which the application has already defined a random subset of the primary and alias flag names itself with the flag package's own definers (string, bool, int, int64, uint, uint64, float64, duration: the kinds whose flag.Getter yields exactly the field's type), through a flag.Set literal or NewCmdLineSet on a substituted flag.CommandLine; sources/flag leaves such flags alone and reads them through flag.Getter, and the four patterns must come out the same. " +
+			"List-element episodes: a static type whose list-of-struct elements carry aliased fields (elements are not pointerified), the four patterns drawn per element field, through the alias-wrapped JSON decoder. " +
 			"distinct_nontrivial = distinct (source, type-shape, alias-tag kinds, pattern vector) signatures with >=1 leaf carrying an alias tag (its own source's or only another source's).",
 		Assumptions: []string{
 			"a field carrying both an alias tag and a format-specific tag is outside the statement and not generated",
@@ -74,6 +77,10 @@ func runC14(w *fw.Worker) {
 	w.Cases(func(i int, r *fw.Rand) {
 		if i%40 == 39 {
 			c14Ez(w, i, r)
+			return
+		}
+		if i%40 == 19 {
+			c14ListElems(w, i, r)
 			return
 		}
 		fam := families[i%len(families)]
@@ -661,4 +668,94 @@ func c14SafeValue(lf *gen.Leaf, uniq int) reflect.Value {
 		return reflect.ValueOf(time.Duration(uniq) * time.Second)
 	}
 	panic("no safe value for " + lf.Name)
+}
+
+// Aliased fields inside the ELEMENTS of a list of structs ("independent of nesting depth"), read through an
+// alias-wrapped JSON decoder built the way ez builds one.
+type c14Elem struct {
+	Port int    `dials:"port" dialsalias:"p"`
+	Host string `dials:"host" dialsalias:"h"`
+	Note string `dials:"note"`
+}
+
+type c14ListCfg struct {
+	Name     string    `dials:"name" dialsalias:"title"`
+	Backends []c14Elem `dials:"backends"`
+}
+
+func c14ListElems(w *fw.Worker, i int, r *fw.Rand) {
+	n := r.Range(1, 4)
+	want := c14ListCfg{}
+	doc := map[string]any{}
+	bothField := ""
+	pattern := ""
+	supply := func(obj map[string]any, primary, alias string, val any, goName string) (set bool) {
+		switch k := r.Intn(8); {
+		case k < 3:
+			obj[primary] = val
+			pattern += "p"
+			return true
+		case k < 6:
+			obj[alias] = val
+			pattern += "a"
+			return true
+		case k == 6:
+			pattern += "-"
+			return false
+		default:
+			if bothField != "" {
+				pattern += "-"
+				return false
+			}
+			obj[primary], obj[alias] = val, val
+			bothField = goName
+			pattern += "B"
+			return true
+		}
+	}
+	if supply(doc, "name", "title", fmt.Sprintf("n%d", i), "Name") {
+		want.Name = fmt.Sprintf("n%d", i)
+	}
+	var list []any
+	for k := 0; k < n; k++ {
+		el := map[string]any{"note": fmt.Sprintf("note%d", k)}
+		e := c14Elem{Note: fmt.Sprintf("note%d", k)}
+		if supply(el, "port", "p", 1000+k, "Port") {
+			e.Port = 1000 + k
+		}
+		if supply(el, "host", "h", fmt.Sprintf("host%d", k), "Host") {
+			e.Host = fmt.Sprintf("host%d", k)
+		}
+		list = append(list, el)
+		want.Backends = append(want.Backends, e)
+	}
+	doc["backends"] = list
+	text, _ := json.Marshal(doc)
+	desc := map[string]any{"part": "aliases-inside-list-elements", "document": string(text), "pattern": pattern}
+	w.BeginDesc(i, fmt.Sprintf("%v", desc))
+	dec := sourcewrap.NewTransformingDecoder(&jsondec.Decoder{}, transform.NewAliasMangler(common.DialsTagName))
+	d, err := dials.Config(context.Background(), &c14ListCfg{}, &static.StringSource{Data: string(text), Decoder: dec})
+	w.Count("alias_cases_inside_list_elements", 1)
+	if bothField != "" {
+		w.Count("both_set_inside_list_elements", 1)
+		if err == nil {
+			w.Violation(i, "no-error-with-both-set:json:inside-list-elements", fmt.Sprintf("field %s supplied under both names, Config returned %+v", bothField, *d.View()), desc)
+			return
+		}
+		if !strings.Contains(err.Error(), bothField) {
+			w.Violation(i, "both-set-error-does-not-name-the-field:json:inside-list-elements", err.Error(), desc)
+			return
+		}
+		w.Distinct("list-elems|both|" + pattern)
+		return
+	}
+	if err != nil {
+		w.Violation(i, "error-without-both-set:json:inside-list-elements", err.Error(), desc)
+		return
+	}
+	if got := *d.View(); !reflect.DeepEqual(got, want) {
+		w.Violation(i, "alias-result-differs:json:inside-list-elements", fmt.Sprintf("got %+v, want %+v", got, want), desc)
+		return
+	}
+	w.Distinct("list-elems|" + pattern)
 }
